@@ -185,7 +185,7 @@ class Ref(object):
         elif b == 'int.to.chr$':
             n = self.pop(is_int)
             if not known(n): st.append(US)
-            elif not 0 <= n <= 0x10FFFF: raise ExpectBibtexError('int.to.chr$ of %d' % n)
+            elif not 0 <= n <= 0x10FFFF: raise ExpectBibtexError('int.to.chr$ of %d (not a character code)' % n)
             elif n > 127: raise Abstain('outside ASCII')
             else: st.append(chr(n))
         elif b == 'int.to.str$':
@@ -267,7 +267,10 @@ def reference(cmds):
         n = S(name).upper()
         if n in ('INTEGERS', 'STRINGS') and len(groups) == 1:
             for t, v in groups[0]:
-                if t != 2 or S(v).lower() in r.vars or S(v).lower() in BUILTIN_NAMES: raise Abstain('declaration')
+                if t != 2: raise Abstain('declaration')
+                if S(v).lower() in r.vars or S(v).lower() in BUILTIN_NAMES:
+                    # BibTeX: "... is already a type ... function name" -- re-declaring a name is an error
+                    raise ExpectBibtexError('%s re-declaring the name %s' % (n, S(v)))
                 r.vars[S(v).lower()] = ['int', 0] if n == 'INTEGERS' else ['str', '']
         elif n == 'FUNCTION' and len(groups) == 2 and len(groups[0]) == 1 and groups[0][0][0] == 2:
             f = S(groups[0][0][1]).lower()
@@ -299,9 +302,9 @@ def oracle_reference(arg, out):
         return None
     except ExpectBibtexError as e:
         if out[0] == 2:
-            return '%s (not a character code) must be reported as a BibTeX error; a Python exception escaped instead' % e
+            return '%s must be reported as a BibTeX error; a Python exception escaped instead' % e
         if out[0] == 0:
-            return '%s (not a character code) must be reported as a BibTeX error; the run succeeded' % e
+            return '%s must be reported as a BibTeX error; the run succeeded' % e
         return None
     except RecursionError:
         return None
